@@ -50,6 +50,12 @@ do_case(const struct rc_day *p, int H, int s, int replay)
 	*c_eval += 2;
 	++*c_trans;
 	ex_outcome(ex_hash_mix(ex_hash(b, strlen(b)), (uint64_t)s));
+	if (H == H_YMCW0 && (!strcmp(c02_specs[s], "%w") || !strcmp(c02_specs[s], "%u")) && atoi(a) == 7 && atoi(b) == 0 && b[0] == '0') {
+		/* reading (C01): Sunday prints as 0 or 7, padding is free */
+		EX_CTR(c_sun, "accepted:Sunday printed as 0/00 where the ymd-held value prints 7/07");
+		++*c_sun;
+		return 0;
+	}
 	if (strcmp(a, b)) {
 		snprintf(key, sizeof(key), "repr held=%s spec=%s", held_name[H], c02_specs[s]);
 		snprintf(cas, sizeof(cas), "%d %d %d", H, s, p->rd);
